@@ -41,7 +41,7 @@ REACH = [("yamlpath/commands/yaml_get.py", "main,validateargs", "yaml_get.main")
          ("yamlpath/commands/yaml_validate.py", "main,process_file", "yaml_validate.main"),
          ("yamlpath/common/parsers.py", "get_yaml_data,get_yaml_multidoc_data,jsonify_yaml_data", "Parsers")]
 SIZES = {"quick": dict(cases=30000, sub=160), "thorough": dict(cases=250000, sub=1500)}
-REQUIRED_COUNTERS = ["validate_implicit_stdin_cases", "get_inherited_values_cases", "get_docs_ending_in_block_scalar", "set_saveto_cases", "merge_one_multidoc_input_cases", "diff_scalar_root_cases", "get_cases", "set_cases", "merge_cases", "diff_cases", "validate_cases", "stdin_cases",
+REQUIRED_COUNTERS = ["set_delete_many_cases", "set_empty_string_value_cases", "validate_implicit_stdin_cases", "get_inherited_values_cases", "get_docs_ending_in_block_scalar", "set_saveto_cases", "merge_one_multidoc_input_cases", "diff_scalar_root_cases", "get_cases", "set_cases", "merge_cases", "diff_cases", "validate_cases", "stdin_cases",
                      "json_cases", "subprocess_cases"]
 
 
@@ -264,7 +264,9 @@ def case_set(ctx, rng, box, sub):
     if not isinstance(data, (dict, list)) or yp.is_set(data) or not ES.roundtrips(data):
         return
     op = rng.choice(["set", "set", "create", "delete", "mustexist-miss", "check-fail"])
-    value = rng.choice(["zz", "new value", "7", "2.5", "true", "x y", "abc"])
+    value = rng.choice(["zz", "new value", "7", "2.5", "true", "x y", "abc", ""])      # (the empty String is a value like any other)
+    if value == "":
+        ctx.count("set_empty_string_value_cases")
     segs = path_to_random_scalar(rng, data)
     if op in ("set", "delete", "check-fail") and segs is None:
         return
@@ -360,6 +362,70 @@ def case_set(ctx, rng, box, sub):
     if sub and op in ("set", "create"):
         f2 = box.file(text + "\n")
         subprocess_files(ctx, case, "yaml-set", argv + [f2], f2, after)
+
+
+def case_set_delete_many(ctx, rng, box, sub):
+    """yaml-set --delete with a path matching SEVERAL elements of ONE list - reported out of index order (inverted max/min,
+    !unique), or one element reached twice (an aliased sequence under a wildcard) - leaves the file the library's delete of
+    all gathered matches leaves."""
+    n = rng.randrange(3, 7)
+    vals = [rng.choice([1, 2, 3, 5, 5, 8, 9]) for _ in range(n)]
+    words = [rng.choice(["alpha", "beta", "gamma", "delta", "beta"]) for _ in range(n)]
+    shape = rng.choice(["minmax", "minmax", "aliased", "unique", "search"])
+    if shape == "minmax":
+        text = "scores: [%s]\nkeep: [1, 2]" % ", ".join(map(str, vals))
+        path = rng.choice(["/scores[!max()]", "scores[!min()]", "/scores[!max()]", "/scores[max()]"])
+    elif shape == "unique":
+        text = "scores: [%s]\nkeep: x" % ", ".join(words)
+        path = rng.choice(["/scores[!unique()]", "scores[unique()]", "/scores[distinct()]"])
+    elif shape == "aliased":
+        text = "primary: &P [%s]\nbackup: *P\nkeep: [alpha]" % ", ".join(words)
+        path = rng.choice(["/*[0]", "/*[%d]" % (n - 1), "*[.=beta]", "/**[.^a]", "/*[1:3]"])
+    else:
+        text = "scores: [%s]\nkeep: 1" % ", ".join(map(str, vals))
+        path = rng.choice(["/scores[.>2]", "scores[.!=5]", "/scores[1:3]", "(/scores[0])+(/scores[2])"])
+    try:
+        twin = yp.load(text)
+        nodes = list(Processor(LOG, twin).get_nodes(path, mustexist=True))
+        Processor(LOG, twin).delete_gathered_nodes(nodes)
+        exp_err = False
+    except YAMLPathException:
+        exp_err = True
+    except Exception:
+        ctx.count("library_crash_left_to_C03_C15")
+        return
+    f = box.file(text + "\n")
+    before = open(f, "rb").read()
+    argv = ["-g", path, "-D", "-S"]
+    case = {"tool": "yaml-set", "doc": text, "argv": argv}
+    r = cli.run("yaml_set", argv + [f], sandbox=box.dir)
+    ctx.evaluations += 1
+    ctx.counters["set_delete_many_cases"] = ctx.counters.get("set_delete_many_cases", 0) + 1
+    if not exp_err and len(nodes) >= 2:
+        ctx.mark_nontrivial(["delete-many", text, argv])
+    if r["exc"]:
+        ctx.violation("yaml-set/crash", {"case": case, "summary": r["exc"][:200]})
+        return
+    after = open(f, "rb").read()
+    if exp_err:
+        if r["code"] == 0:
+            ctx.violation("yaml-set/exit-0-on-failure/delete-many", {"case": case, "summary": "file now %r" % after[:150]})
+        elif after != before:
+            ctx.violation("yaml-set/failed-but-file-changed/delete-many", {"case": case, "summary": "file now %r" % after[:150]})
+        return
+    if r["code"] != 0:
+        ctx.violation("yaml-set/nonzero-exit/delete-many", {"case": case, "summary": "exit %d: %s" % (r["code"], r["err"][:150])})
+        return
+    try:
+        back = yp.load(after.decode())
+    except yp.LoadError:
+        ctx.violation("yaml-set/file-does-not-reload/delete-many", {"case": case, "summary": "%r" % after[:200]})
+        return
+    from vf.model import edits as E
+    a, b = E.strip_anchors(E.image(back)), E.strip_anchors(E.image(yp.load(yp.dump(twin))))
+    if a != b:
+        ctx.violation("yaml-set/file-differs-from-library/delete-many", {"case": case, "summary": "file %r ; library twin %r" % (
+            after[:150], yp.dump(twin)[:150])})
 
 
 # ---- yaml-merge -----------------------------------------------------------------------------------------
@@ -624,7 +690,7 @@ def run_shard(ctx):
     want = sz["cases"] // ctx.nshards
     wsub = max(5, sz["sub"] // ctx.nshards)
     nsub = 0
-    funcs = [case_get, case_get, case_get, case_set, case_set, case_merge, case_diff, case_validate]
+    funcs = [case_get, case_get, case_get, case_set, case_set, case_merge, case_diff, case_validate, case_set_delete_many]
     i = 0
     while ctx.evaluations < want:
         f = funcs[i % len(funcs)]
